@@ -83,3 +83,10 @@ int libwifi_parse_disassoc(struct libwifi_parsed_disassoc *disassoc, struct libw
 
     return 0;
 }
+
+/**
+ * The tagged parameters copied by libwifi_parse_disassoc are the only memory a libwifi_parsed_disassoc owns.
+ */
+void libwifi_free_parsed_disassoc(struct libwifi_parsed_disassoc *disassoc) {
+    free(disassoc->tags.parameters);
+}
